@@ -134,17 +134,38 @@ def generated(ctx, f):
         import random
         random.Random(ctx.seed).shuffle(progs)
         progs = sorted(progs[:cap])          # quick tier: a seeded sample; the thorough tier replays all of them
-    pf = f'{ctx.work}/gen_programs.ndjson'
-    with open(pf, 'w') as fh:
-        for p in progs:
-            fh.write(p.replace('\\"', '"') + '\n')
-    out_dir, st = run_harness(ctx, f['driver'], 'gen', mode='c', profile='gen', seed=ctx.seed, programs=pf, timeout=3000)
-    rej, nexec = validate(ctx, f['tv'], f'{out_dir}/trace.ndjson', st, f['prop'], 'tv_gen', parallel=8 if ctx.quick else 16)
-    ctx.conf.append(dict(mode='generated (TLC behaviours replayed)', generator=f'{g["spec"]}/{cfg}', behaviours_generated=total, behaviours_replayed=len(progs), executions=st['executions'],
-                         exhaustive_to_depth=(len(progs) == total), rejected=len(rej)))
+    # replay in parallel shards (one harness process each: the controlled scheduler is per process)
+    from concurrent.futures import ThreadPoolExecutor
+    nshard = 1 if len(progs) <= 1500 else 12
+    shards = [progs[i::nshard] for i in range(nshard)]
+
+    def one(i):
+        pf = f'{ctx.work}/gen_programs{i}.ndjson'
+        with open(pf, 'w') as fh:
+            for p in shards[i]:
+                fh.write(p.replace('\\"', '"') + '\n')
+        try:
+            return run_harness(ctx, f['driver'], f'gen{i}', mode='c', profile='gen', seed=ctx.seed + i, programs=pf, timeout=3000)
+        except Crash as c:
+            return c
+    with ThreadPoolExecutor(nshard) as ex:
+        results = list(ex.map(one, range(nshard)))
+    nrej = nex = 0
+    for i, res in enumerate(results):
+        if isinstance(res, Crash):
+            first = str(res).splitlines()[0][:300]
+            report(ctx, f'crash:gen:{first[:80]}', f'the process replaying TLC-generated programs (shard {i}) was killed by a panic raised in a goroutine of the library: {first}',
+                   {'panic.txt': str(res), 'exec.json': dict(driver=f['driver'], profile='gen', mode='c', seed=ctx.seed + i, crash=True)})
+            continue
+        out_dir, st = res
+        rej, nexec = validate(ctx, f['tv'], f'{out_dir}/trace.ndjson', st, f['prop'], f'tv_gen{i}', parallel=8 if ctx.quick else 16)
+        nrej += len(rej)
+        nex += st['executions']
+        handle_rejections(ctx, f, rej, st, 'c', f'gen{i}')
+    ctx.conf.append(dict(mode='generated (TLC behaviours replayed)', generator=f'{g["spec"]}/{cfg}', behaviours_generated=total, behaviours_replayed=len(progs), executions=nex,
+                         exhaustive_to_depth=(len(progs) == total), rejected=nrej))
     ctx.distinct_nontrivial += len(progs)
     ctx.samples += [dict(generated_program=json.loads(progs[len(progs) // 2].replace('\\"', '"')))]
-    handle_rejections(ctx, f, rej, st, 'c', 'gen')
 
 
 def run(ctx):
